@@ -28,7 +28,7 @@ pub fn jobs(ctx: &Ctx) -> Vec<Job> {
     let caps = &ctx.caps;
     let mut jobs = Vec::new();
     let mut k = 0u64;
-    let per_cell = ctx.tier.pick(3, ctx.scale(50));
+    let per_cell = ctx.tier.pick(6, ctx.scale(200));
     for v in 1..=40usize {
         for level in 0..4usize {
             for p in 0..per_cell {
@@ -55,7 +55,7 @@ pub fn jobs(ctx: &Ctx) -> Vec<Job> {
         }
     }
     let mut rng = Rng::new(ctx.seed ^ 0xc11);
-    for _ in 0..ctx.tier.pick(800, ctx.scale(40_000)) {
+    for _ in 0..ctx.tier.pick(2_000, ctx.scale(200_000)) {
         k += 1;
         let class = rng.below(3);
         let level = rng.below(4);
@@ -63,7 +63,7 @@ pub fn jobs(ctx: &Ctx) -> Vec<Job> {
     }
     // versions 1-3 are cheap (a 21x21 candidate costs microseconds) and their dark ratio moves in
     // coarse steps (1/441), so they are where the dark-ratio bands and ties are actually hit
-    for _ in 0..ctx.tier.pick(12_000, ctx.scale(300_000)) {
+    for _ in 0..ctx.tier.pick(20_000, ctx.scale(1_500_000)) {
         k += 1;
         let class = rng.below(3);
         let level = rng.below(4);
